@@ -296,12 +296,18 @@ def oracle_fdepsd(case, R):
         h2 = len(sig) // 2
         sig[h2:h2 + 7] = ev * float(case["two_events"])
         R.label("sig:two_events")
+    if case.get("creep"):
+        # a slow creep up to the largest value (steps near the top far below 1e-6 of the largest step elsewhere),
+        # then a drop; no pre-processing, so that the plateau survives into the responses
+        k_ = np.arange(4000)
+        sig = np.r_[float(case["creep"]) * (1.0 - np.exp(-k_ / 250.0)), np.zeros(600)]
+        R.label("sig:creep")
     sr = case["sr"]
     freq = np.array(case["freq"], float)
     LF = len(freq)
     kw = dict(resp=case["resp"], nbins=case["nbins"], T0=case["T0"], hpfilter=case["hpfilter"],
               winends=case["winends"], verbose=False)
-    if case.get("two_events"):
+    if case.get("two_events") or case.get("creep"):
         kw.update(detrend=False, winends=None, hpfilter=None, rolloff="none")
     ser = fdepsd.fdepsd(sig, sr, freq, case["Q"], parallel="no", **kw)
     delays = delays_for(case, LF)
@@ -379,6 +385,9 @@ def fde_cases(draw):
             "two_events": draw(st.sampled_from([None, None, 2.0, 4.0, 1.5, 3.0]))}
     if c["two_events"]:
         c["nbins"] = draw(st.sampled_from([4, 6, 8, 12, 24, 36, 300]))      # the level ratio lands on a bin boundary
+    elif draw(st.integers(0, 4)) == 0:
+        c["creep"] = draw(st.sampled_from([1.0, 3.0, -2.0]))
+        c["Q"] = 10.0
     return c
 
 
